@@ -345,7 +345,8 @@ func (t *Table) Diff(old Table) {
 			if t.Indexes[i].Typ == old.Indexes[j].Typ && utils.SlideStrEqual(t.Indexes[i].Columns, old.Indexes[j].Columns) {
 				t.Indexes[i].Action = MigrateNoAction
 			} else {
-				t.Indexes[i] = old.Indexes[j]
+				prev := old.Indexes[j]
+				t.Indexes[i].previous = &prev
 				t.Indexes[i].Action = MigrateModifyAction
 			}
 		}
